@@ -46,6 +46,11 @@ class Tape:
             r -= w
         return pairs[-1][1]
 
+    def tail(self, k=0):
+        """byte k from the end of the tape, read without consuming anything: lets a builder gain a choice without
+        shifting the draws of the builders that follow it (recorded tapes keep their meaning)"""
+        return self.d[-1 - k] if len(self.d) > k else 0
+
     def exhausted(self):
         return self.i > len(self.d)
 
